@@ -5,7 +5,7 @@
    3. [mle]: every step is monotone in the fuel -> [walk_fuel_mono]: more fuel never changes an accepted answer.
    4. [walk_ok_sound]: the boolean of the tie composed with the proved [extents_ok_sound]. *)
 From HV Require Import Base.Prelude Base.Outcome Base.Bytes Spec.Parse Spec.Format Spec.FormatMsg Spec.FormatNode
-  Model.Wellformed Proofs.Wellformed Spec.Walk.
+  Spec.FormatRef Model.Wellformed Proofs.Wellformed Spec.Walk.
 
 (* ================================================================== 1. extents stay inside the file *)
 Section Good.
@@ -131,6 +131,9 @@ Proof. unfold btree2_walk. gd. Qed.
 Hint Resolve good_fheap_walk good_btree2_walk : gooddb.
 Lemma good_dense_attrs d : good (dense_attrs f flen tol c d).
 Proof. unfold dense_attrs. gd. Qed.
+Lemma good_dense_links pad d : good (dense_links f flen tol c pad d).
+Proof. unfold dense_links. gd. Qed.
+Hint Resolve good_dense_links : gooddb.
 Lemma good_dataset_data cb lay esz dims total fl :
   (forall nd a t l, good (cb nd a t l)) -> good (dataset_data flen tol c cb lay esz dims total fl).
 Proof. intros Hc. unfold dataset_data. gd. Qed.
@@ -151,6 +154,7 @@ Proof. unfold finish. gd. Qed.
 Lemma good_walk_all f tol fuel : good (walk_all f flen tol fuel).
 Proof.
   unfold walk_all. apply good_bind. apply good_walk_superblock. intros sb. cbv zeta.
+  apply good_bind. { gd. apply good_ohdr_walk. } intros ks. cbv zeta.
   apply good_bind. apply good_walk_obj. intros _. apply good_bind. apply good_add_link. intros _.
   apply good_bind. apply good_finish. intros _. apply good_ret.
 Qed.
@@ -268,6 +272,7 @@ End Mono.
 Lemma mle_walk_all f flen tol n : mle (walk_all f flen tol n) (walk_all f flen tol (S n)).
 Proof.
   unfold walk_all. apply mle_bind. apply mle_refl. intros sb. cbv zeta.
+  apply mle_bind. { mn. apply mle_ohdr_walk. } intros ks. cbv zeta.
   apply mle_bind. apply mle_walk_obj. intros _. apply mle_refl.
 Qed.
 
